@@ -696,6 +696,25 @@ def run(ctx, cases_override=None):
         for x in f2:
             x["theorem"] = "correspondence drv_relax (%s, OMP_NUM_THREADS=3) vs model" % x["op"]
         fails += f2
+    # the level-scheduled parallel forms (gauss_seidel::parallel_sweep, ilu_solve::sptr_solve) are taken
+    # with >= 4 threads: every gs / ilu0 case again through them, at 4 and 5 threads, vs the same model
+    if not cases_override:
+        psub = []
+        for l in lines:
+            sp = l.split(" ", 2)
+            if sp[1] in ("gs", "ilu0") and sp[2].split(" ", 1)[0] in ("pre", "post", "apply"):
+                psub.append("%sP %sp %s" % (sp[0], sp[1], sp[2]))
+        for nt in ("4", "5"):
+            f3, _, _ = diff_run(ctx, "relax", psub, env={"OMP_NUM_THREADS": nt}, shards=4)
+            for x in f3:
+                x["theorem"] = "correspondence drv_relax (%s = level-scheduled parallel form, OMP_NUM_THREADS=%s) vs the serial sweep model" % (x["op"], nt)
+            fails += f3
+    else:
+        plines = [l for l in lines if l.split(" ", 2)[1] in ("gsp", "ilu0p")]
+        if plines:
+            f3, _, _ = diff_run(ctx, "relax", plines, env={"OMP_NUM_THREADS": "4"}, shards=1)
+            fails += f3
+        lines = [l for l in lines if l.split(" ", 2)[1] not in ("gsp", "ilu0p")]
     # oracles on the implementation's outputs
     ol, th, case_of = derive_oracles(lines, impl)
     by_id = {l.split(" ", 1)[0]: l for l in lines}
